@@ -309,7 +309,7 @@ pub fn run(tier: &str) -> i32 {
         let mut level: Vec<Vec<HOp>> = vec![vec![]];
         for d in 0..=depth {
             let next: Mutex<Vec<Vec<HOp>>> = Mutex::new(vec![]);
-            let (done, to) = par_for(level.len(), threads(), deadline, |i| {
+            let (done, to) = crate::par::par_for_core(level.len(), if d <= 3 { level.len() } else { 0 }, threads(), deadline, |i| {
                 let p = &level[i];
                 match run_handle_program(first_kind, p, 0, false) {
                     Ok((children, dig)) => {
@@ -457,7 +457,7 @@ pub fn run(tier: &str) -> i32 {
         }
     }
     let tally = Mutex::new(std::collections::BTreeMap::<String, u64>::new());
-    let (mdone, mto) = par_for(jobs.len(), threads(), deadline_b, |i| {
+    let (mdone, mto) = crate::par::par_for_core(jobs.len(), required_markers, threads(), deadline_b, |i| {
         let (b, marker) = &jobs[i];
         let dir = fresh_dir();
         if copy_tree(&bases[*b], &dir).is_err() {
